@@ -9,7 +9,7 @@ namespace GV.Salt
 open GV.NameHash
 
 abbrev Bytes := List UInt8
-def str (s : String) : Bytes := s.toUTF8.toList
+def str (s : String) : Bytes := s.toList.flatMap String.utf8EncodeChar  -- kernel-reducible on literals (unlike toUTF8)
 
 /-- garble's own inputs, as the toolexec child sees them -/
 structure Cfg where
@@ -38,7 +38,7 @@ def appendFlags (c : Cfg) (forBuildHash : Bool) : Bytes :=
 
 /-- what `addGarbleToHash` writes into the hasher -/
 def garblePreImage (c : Cfg) (input : Bytes) : Bytes :=
-  input ++ c.binaryID ++ str " GOGARBLE=" ++ c.gogarble ++ appendFlags c true
+  input ++ c.binaryID ++ appendFlags c true ++ str " GOGARBLE=" ++ c.gogarble
 
 /-- `addGarbleToHash`; `none` is the "missing binary content ID" panic -/
 def addGarbleToHash (c : Cfg) (input : Bytes) : Option Bytes :=
